@@ -1076,7 +1076,72 @@ def stress_inputs():
     return out
 
 
+# ---------------------------------------------------------------- C11
+class GenericRender(TypeRender):
+    GT = {'T': 'T', 'U': 'U', 'WrapT': 'Wrap<T>', 'PhantomT': '::core::marker::PhantomData<T>', 'PairTU': '(T, U)', 'conc': 'u8',
+          'PhantomAll': '::core::marker::PhantomData<(T, U)>', 'A': 'TA'}
+
+    def __init__(self, idx, cfg, prop, **kw):
+        super().__init__(idx, cfg, prop, **kw)
+        self.pool = None
+
+    def generics_decl(self):
+        return '<T, U>'
+
+    def field_type(self, v, i, f):
+        return self.GT[f['ty']]
+
+    def target_name(self, x):
+        return 'TA'
+
+    def method_path(self, t):
+        return {'PartialEq': 'probes::g_eq', 'Ord': 'probes::g_cmp', 'PartialOrd': 'probes::g_pcmp', 'Hash': 'probes::g_hash',
+                'Clone': 'probes::g_clone', 'Debug': 'probes::g_fmt', 'Into': 'probes::g_into'}[t]
+
+    def extra_items(self):
+        out = []
+        n = self.name
+        hdr = 'impl<T, U>'
+        if 'Copy' in self.traits and 'Clone' not in self.traits:
+            out.append('%s ::core::clone::Clone for %s<T, U> { fn clone(&self) -> Self { unimplemented!() } }' % (hdr, n))
+        if 'Eq' in self.traits and 'PartialEq' not in self.traits:
+            out.append('%s ::core::cmp::PartialEq for %s<T, U> { fn eq(&self, _: &Self) -> bool { true } }' % (hdr, n))
+        if 'Ord' in self.traits and 'PartialOrd' not in self.traits:
+            out.append('%s ::core::cmp::PartialOrd for %s<T, U> where Self: ::core::cmp::PartialEq { fn partial_cmp(&self, _: &Self) -> Option<::core::cmp::Ordering> { None } }' % (hdr, n))
+        return ' '.join(out)
+
+    def case_impl(self):
+        return ''
+
+
+def c11(ctx):
+    quick = ctx.tier == 'quick'
+    runs = [{'module': 'MC_C11', 'cfg': 'MC_C11_quick.cfg', 'workers': 8}] if quick else \
+           [{'module': 'MC_C11', 'cfg': 'MC_C11_thorough.cfg', 'workers': 12, 'timeout': 3000, 'heap': '16g'}]
+    tpath = {'Debug': '::core::fmt::Debug', 'Clone': 'Clone', 'Copy': 'Copy', 'PartialEq': 'PartialEq', 'Eq': 'Eq', 'PartialOrd': 'PartialOrd',
+             'Ord': 'Ord', 'Hash': '::core::hash::Hash', 'Default': 'Default', 'Into': 'Into<TA>'}
+
+    def calls(r):
+        out = []
+        for t in r.traits:
+            for a, an in ((True, 'P'), (False, 'No')):
+                for b, bn in ((True, 'P'), (False, 'No')):
+                    out.append('rec_applies(&mut out, %d, "%s", %s, %s, impls!(%s<%s, %s>: %s));'
+                               % (r.idx, t, str(a).lower(), str(b).lower(), r.name, an, bn, tpath[t]))
+        return out
+
+    r_property(ctx, runs, ['Seal'], GenericRender, calls, [0, 1],
+               COMMON_ASSUMPTIONS + ['the applicability probe impls!(Type<Args>: Trait) (inherent associated const shadowing a blanket trait const) reports what rustc\'s trait '
+                                     'resolution proves', 'argument types: P implements every trait, No implements none'],
+               'generic struct/enum items over <T, U> within the bounds of the MC_C11 cfg: field type classes {T, U, Wrap<T>, PhantomData<T>, (T,U), concrete} x the attributes '
+               'that decide delegation (ignore / method per trait, default variant, Into designation) x 13 trait sets (primaries with and without their companions, stand-alone '
+               'Copy / Eq / Ord next to hand-written supertraits); for every educed trait and every assignment of {implements everything, implements nothing} to T and U the real '
+               'compiler is asked whether the impl applies; non-trivial = any non-default setting or more than one variant',
+               trace_module='TraceB', trace_cfg='TraceB.cfg')
+
+
 REGISTRY = {
+    'C11': c11,
     'C13': c13,
     'C17': c17,
     'C16': c16,
